@@ -257,6 +257,10 @@ Atoms(Lv, Us) == Lv \cup {Un(u, x) : u \in Us, x \in Lv}
 \* quick tier
 QCoreInit  == Atoms({LitA, LitB}, {Star, Plus, Quest})
 QCorePool  == Atoms({LitA}, CoreUn) \cup {LitB, Cls}
+\* optional / alternative parts between literals and classes, three builder steps: a(?:[ab]b)?, (?:a|[ab]b)a, ... (what the
+\* common-suffix walk has to get right: branches of different length that rejoin)
+SuffixLeaves == {LitA, LitB, Cls}
+SuffixUn   == {Quest, QuestZ}
 \* case folding needs an alphabet with both cases:  Sigma = {"a", "A"}.  No literal "A": the parser of
 \* rsc.io/binaryregexp factors  A|(?i:a)x  into  A(?:|x)  (Regexp.Equal ignores the fold flag), so the
 \* engine itself deviates from regex semantics there (seen by the harness' engine check).
